@@ -2,7 +2,9 @@ package main
 
 import (
 	"bytes"
+	"encoding/binary"
 	"fmt"
+	"hash/crc32"
 	"math/rand"
 	"os"
 	"path/filepath"
@@ -366,6 +368,62 @@ func zeroTailScenario(rng *rand.Rand, idx int) *scenario {
 	return sc
 }
 
+// forgeCRC32 overwrites the last four bytes of b so that its IEEE CRC-32 becomes target (CRC-32 is affine: for every
+// prefix exactly one four-byte suffix does it).
+func forgeCRC32(b []byte, target uint32) bool {
+	n := len(b)
+	if n < 4 {
+		return false
+	}
+	var rev [256]byte
+	for i := 0; i < 256; i++ {
+		rev[crc32.IEEETable[i]>>24] = byte(i)
+	}
+	reg := ^crc32.Update(0, crc32.IEEETable, b[:n-4])
+	v := ^target
+	for i := 0; i < 4; i++ {
+		idx := rev[v>>24]
+		v = ((v ^ crc32.IEEETable[idx]) << 8) | uint32(idx)
+	}
+	binary.LittleEndian.PutUint32(b[n-4:], v^reg)
+	return crc32.ChecksumIEEE(b) == target
+}
+
+// crcScenario: slices whose CRC-32 values are special - two DIFFERENT slices with the same CRC-32 (only the MD5 tells
+// them apart) and a slice whose CRC-32 is 0 (a value easily mistaken for "no entry").  The slice in front of the
+// CRC-0 slice is destroyed by an insertion, so the CRC-0 slice is the first survivor after the edit and has to be
+// found by the sliding search; exactly one recovery block exists.
+func crcScenario(rng *rand.Rand) *scenario {
+	const s = 64
+	sc := &scenario{prot: map[string][]byte{}, s: s, r: 1, g: 2, volLoss: "none"}
+	x := make([]byte, s)
+	y := make([]byte, s)
+	w := make([]byte, s)
+	z := make([]byte, s)
+	rng.Read(x)
+	rng.Read(y)
+	rng.Read(w)
+	rng.Read(z)
+	if !forgeCRC32(y, crc32.ChecksumIEEE(x)) || !forgeCRC32(z, 0) || bytes.Equal(x, y) {
+		return nil
+	}
+	tail := make([]byte, 20)
+	rng.Read(tail)
+	main := append(append(append(append(append([]byte{}, x...), y...), w...), z...), tail...)
+	other := make([]byte, 3*s+5)
+	rng.Read(other)
+	sc.names = []string{"main.bin", "other.bin"}
+	sc.prot["main.bin"], sc.prot["other.bin"] = main, other
+	sc.desc = "two slices with one CRC-32, a slice with CRC-32 0"
+	sc.damage = func(rng *rand.Rand, sc *scenario, disk map[string][]byte) []string {
+		d := disk["main.bin"]
+		p := 2*s + 7
+		disk["main.bin"] = append(append(append([]byte{}, d[:p]...), 0xA5), d[p:]...)
+		return []string{fmt.Sprintf("insert main.bin@%d+1", p)}
+	}
+	return sc
+}
+
 // index file base names: volume discovery is by name (<base>.*.par2), so their spelling matters
 var p2Bases = []string{"arch", "backup", "data.tar", "a", "par2", "set.vol", "with space", "UPPER", "x.par2", "vol00+01", "backup 100%", "50%done %d %s"}
 
@@ -568,6 +626,11 @@ func runP2Big(args []string) error {
 			sc = longNameScenario(rng)
 		} else if idx == 27 || idx == 30 {
 			sc = zeroTailScenario(rng, idx)
+		} else if idx == 36 {
+			sc = crcScenario(rng)
+			if sc == nil {
+				return fmt.Errorf("crc scenario: could not forge the checksums")
+			}
 		} else if idx == 33 {
 			// the stale-volume set again, with BOTH files to be rewritten in one Repair (several goroutines, no double check)
 			sc = staleScenario(rng)
